@@ -46,9 +46,9 @@ def main(tier, only=None):
     if want("hideset"):
         e1.run_set(chk, "c09/macro.c", [e1.H("h_hideset", "hideset/algebra", unwind=10, timeout=300),
                                          e1.H("h_expand_hideset", "hideset/expansion-gets-intersection-plus-name", unwind=12, timeout=600, object_bits=11,
-                                              desc="real expand_macro on `FM ( ) z` / `OM z` with symbolic hide sets on the macro token, the closing paren and the next token")], workers=2)
+                                              desc="real expand_macro on `FM ( ) z` / `OM z` with symbolic hide sets on the macro token, the closing paren and the next token")], workers=3)
     if want("kernels"):
-        chk.bounds += ["stringize: the real stringize() on 1..2 tokens of symbolic kind over { ab, \\, \"x\\n\", '\\\\', \"q\", + } with symbolic white space",
+        chk.bounds += ["stringize: the real stringize() on 1..2 tokens of symbolic kind over { ab, \\, \"x\\n\", '\\\\', \"q\", + } with symbolic white space (none, blanks, or a new-line inside the invocation)",
                        "__VA_OPT__: the real subst() on `__VA_OPT__ ( x a ) y` with __VA_ARGS__ present/absent and x, y independently empty"]
         e1.run_set(chk, "c09/strz.c", [e1.H("h_stringize", "kernels/stringize-escapes-only-in-literals", unwind=42, timeout=900, object_bits=12),
                                         e1.H("h_vaopt", "kernels/va-opt-contents-substituted", unwind=14, timeout=600,
